@@ -164,6 +164,8 @@ def clause_body(t):
         return op + ' ' + ', '.join(name(n) for n in it)
     if op == 'rename':
         return 'rename ' + ', '.join('%s to %s' % (name(a), name(b)) for a, b in it)
+    if op == 'unpivot':
+        return 'unpivot %s, %s' % (name(it[0]), name(it[1]))
     if op == 'sub':
         return 'sub ' + ', '.join('%s = %s' % (name(a), const(v)) for a, v in it)
     if op == 'aggr':
